@@ -1,0 +1,29 @@
+// +build verif
+
+package server
+
+import (
+	"time"
+
+	"github.com/absolute8511/redcon"
+	"github.com/youzan/ZanRedisDB/common"
+	"github.com/youzan/ZanRedisDB/node"
+)
+
+// VerifNewServer returns a Server that only routes commands to the given
+// namespace manager: no listeners, no coordinator, no transport. Only
+// compiled with the verif build tag.
+func VerifNewServer(nsMgr *node.NamespaceMgr) *Server {
+	return &Server{
+		nsMgr:      nsMgr,
+		stopC:      make(chan struct{}),
+		startTime:  time.Now(),
+		maxScanJob: int32(common.MAX_SCAN_JOB),
+	}
+}
+
+// VerifServeRedis handles one redis command exactly as a client connection
+// would have it handled.
+func (s *Server) VerifServeRedis(conn redcon.Conn, cmd redcon.Command) {
+	s.serverRedis(conn, cmd)
+}
